@@ -470,6 +470,35 @@ fn scale_check(kind: &str, n: usize, dir: &Path) -> Result<(), (String, String)>
             }
             expect.push(("after".into(), "f0.ds".into(), 3));
         }
+        "revisit" => {
+            // n files included one directive after the other, then again: forwards, backwards, every
+            // third one, and from a file in the other directory under another spelling of the path
+            let names: Vec<String> = (1..=n).map(|i| format!("sub/r{}.ds", i)).collect();
+            for (i, nm) in names.iter().enumerate() {
+                write(nm, format!("emit r{}", i + 1))?;
+            }
+            let mut order: Vec<usize> = (0..n).collect();
+            order.extend(0..n);
+            order.extend((0..n).rev());
+            order.extend((0..n).step_by(3));
+            let mut lines = vec!["emit before".to_string()];
+            expect.push(("before".into(), "f0.ds".into(), 1));
+            for &i in &order {
+                lines.push(format!("!include_files ./{}", names[i]));
+                expect.push((format!("r{}", i + 1), names[i].clone(), 1));
+            }
+            lines.push("!include_files ./sub/again.ds".to_string());
+            let mut again = vec![];
+            for i in 0..n {
+                again.push(format!("!include_files ./r{}.ds ../sub/r{}.ds", i + 1, n - i));
+                expect.push((format!("r{}", i + 1), names[i].clone(), 1));
+                expect.push((format!("r{}", n - i), names[n - i - 1].clone(), 1));
+            }
+            write("sub/again.ds", again.join("\n"))?;
+            lines.push("emit after".to_string());
+            expect.push(("after".into(), "f0.ds".into(), lines.len()));
+            write("f0.ds", lines.join("\n"))?;
+        }
         _ => {
             write("f0.ds", "emit before\n!include_files ./sub/long.ds\nemit after".to_string())?;
             expect.push(("before".into(), "f0.ds".into(), 1));
@@ -506,8 +535,8 @@ fn scale_check(kind: &str, n: usize, dir: &Path) -> Result<(), (String, String)>
 fn scale(w: &mut Worker) {
     let dir: PathBuf = w.scratch.join("c14-scale");
     let sizes: Vec<(&str, usize)> = w.tier.pick(
-        vec![("chain", 12), ("chain", 40), ("twins", 5), ("wide", 12), ("wide", 100), ("long", 5000)],
-        vec![("chain", 12), ("chain", 40), ("chain", 150), ("twins", 5), ("wide", 12), ("wide", 100), ("wide", 1000), ("long", 5000), ("long", 200_000)],
+        vec![("chain", 12), ("chain", 40), ("chain", 150), ("twins", 5), ("wide", 12), ("wide", 100), ("wide", 1000), ("wide", 3000), ("long", 5000), ("long", 24000), ("revisit", 2), ("revisit", 5), ("revisit", 9), ("revisit", 17), ("revisit", 33), ("revisit", 100), ("revisit", 300)],
+        vec![("chain", 12), ("chain", 40), ("chain", 150), ("twins", 5), ("wide", 12), ("wide", 100), ("wide", 1000), ("long", 5000), ("long", 200_000), ("revisit", 2), ("revisit", 5), ("revisit", 9), ("revisit", 17), ("revisit", 33), ("revisit", 100), ("revisit", 300), ("revisit", 1025)],
     );
     for (kind, n) in sizes {
         if !w.take() {
@@ -935,7 +964,7 @@ pub fn crash_sig(_case: &Value, kind: &str) -> String {
     kind.to_string()
 }
 
-pub const RULE: &str = "include structures: four files r.ds, d1/a.ds, d1/d2/b.ds, c.ds; every assignment of an include directive (none / one file / two files / the same file twice, listed in one directive, at the first, middle or last line) to each file such that a file only includes files later in the order (two orders: descending into and climbing out of the nested directories), unreachable files normalised away, x path style {./relative, plain relative, absolute}. Faults (on every n-th structure): each include edge pointing to a missing file; a malformed line at every (reachable file, line); a trigger_error at every (reachable file, line); two handled errors in different files (the later one is the last error: its line and its file); pairs of faults (a missing edge or a malformed line in an included file together with a malformed last line of the root file: the one that comes first in the pasted text must be reported). Oracle: parse_file(root) minus directive instructions equals parse_text of the recursively pasted text; every instruction carries the file it came from (compared as canonical paths) and its line in that file; running the file and the pasted text gives the same emit trace and variables; a missing file fails the parse with ErrorReadingFile naming that file; a malformed line fails with its kind, its own line and its own file; get_last_error_line/_source name the included file and line. Scale cases: a chain of 12/40 (thorough 150) files each including the next across two directories, a chain through files whose names differ only in letter case, one directive listing 12/100 (thorough 1000) files, an included file of 5000 (thorough 200000) lines: instruction order, file and line of every instruction. Parse-time output: 8 include shapes with !print lines (a file included once, twice on two lines, twice on one line, three times, a diamond, a nested file twice, prints only below, another file between) x relative / absolute paths, run in a child process against the pasted text run in a child process: same exit status, same standard output. Blocks across files: 11 shapes (if / while / for / fn / nested blocks opened in one file and closed in another, the directive last in its file or not, else in an included file) x relative / absolute paths: final variables of the include structure equal those of the pasted text. Six more shapes: a file defining a function / a scoped function / an alias / a label included twice (two lines, one line, a diamond). Seven shapes with files that hold nothing (zero bytes), a blank or only a comment, first / between / last in a directive and in a nested directive. Relative invocation: 12 cases of (working directory, relative path of the root, includes that climb up to three levels above it), with files of the same name and other contents on the way: the file the directive names is the one that is read";
+pub const RULE: &str = "include structures: four files r.ds, d1/a.ds, d1/d2/b.ds, c.ds; every assignment of an include directive (none / one file / two files / the same file twice, listed in one directive, at the first, middle or last line) to each file such that a file only includes files later in the order (two orders: descending into and climbing out of the nested directories), unreachable files normalised away, x path style {./relative, plain relative, absolute}. Faults (on every n-th structure): each include edge pointing to a missing file; a malformed line at every (reachable file, line); a trigger_error at every (reachable file, line); two handled errors in different files (the later one is the last error: its line and its file); pairs of faults (a missing edge or a malformed line in an included file together with a malformed last line of the root file: the one that comes first in the pasted text must be reported). Oracle: parse_file(root) minus directive instructions equals parse_text of the recursively pasted text; every instruction carries the file it came from (compared as canonical paths) and its line in that file; running the file and the pasted text gives the same emit trace and variables; a missing file fails the parse with ErrorReadingFile naming that file; a malformed line fails with its kind, its own line and its own file; get_last_error_line/_source name the included file and line. Scale cases: a chain of 12/40 (thorough 150) files each including the next across two directories, a chain through files whose names differ only in letter case, one directive listing 12/100 (thorough 1000) files, an included file of 5000 (thorough 200000) lines: instruction order, file and line of every instruction. Parse-time output: 8 include shapes with !print lines (a file included once, twice on two lines, twice on one line, three times, a diamond, a nested file twice, prints only below, another file between) x relative / absolute paths, run in a child process against the pasted text run in a child process: same exit status, same standard output. Blocks across files: 11 shapes (if / while / for / fn / nested blocks opened in one file and closed in another, the directive last in its file or not, else in an included file) x relative / absolute paths: final variables of the include structure equal those of the pasted text. Six more shapes: a file defining a function / a scoped function / an alias / a label included twice (two lines, one line, a diamond). Seven shapes with files that hold nothing (zero bytes), a blank or only a comment, first / between / last in a directive and in a nested directive. Relative invocation: 12 cases of (working directory, relative path of the root, includes that climb up to three levels above it), with files of the same name and other contents on the way: the file the directive names is the one that is read Revisit: 2..300 (thorough 1025) files included by relative path one directive after the other, then again forwards, backwards, every third one, and pairwise from a file in the other directory under another spelling of the path.";
 pub const ASSUMPTIONS: &[&str] = &["cyclic includes are outside the property (C07 probes them)", "the scratch directory is on a local file system without symlinks"];
 pub const EXHAUSTIVE: bool = true;
 pub const WALL_CAP_S: (u64, u64) = (55, 1500);
